@@ -261,4 +261,158 @@ theorem exec_inv (sem : Nat → List Int → Int) (v : InVal) (p : List Instr) :
       have := ih A1 A' (step sem c i) (step_inv sem v A A1 c i h hs) hc
       simpa [exec] using this
 
+
+/-! ## Element-internal cells: memo invariant and the two-run simulation -/
+
+theorem evalI_congr (S : ISem) (allowed : List Atom) (e : IExpr) (h : closedOver allowed e = true)
+    (ρ ρ' : Atom → Int) (hρ : ∀ a ∈ allowed, ρ a = ρ' a) (f f' : Int) (l l' : Nat → Int) :
+    evalI S ρ f l e = evalI S ρ' f' l' e := by
+  induction e with
+  | atom a =>
+    simp only [closedOver, List.contains_eq_mem, decide_eq_true_eq] at h
+    simp [evalI, hρ a h]
+  | field => simp [closedOver] at h
+  | loc r => simp [closedOver] at h
+  | op1 g a ih =>
+    simp only [closedOver] at h
+    simp [evalI, ih h]
+  | op2 g a b iha ihb =>
+    simp only [closedOver, Bool.and_eq_true] at h
+    simp [evalI, iha h.1, ihb h.2]
+
+/-- Every filled memo cell holds its specification evaluated at some environment that has the
+stored tag as key. -/
+def MemoInv (S : ISem) (p : IProg) (cells : Nat → Option (List Int × Int)) : Prop :=
+  ∀ c tag val, cells c = some (tag, val) →
+    ∃ ρ' : Atom → Int, (p.keyAtoms c).map ρ' = tag ∧ val = evalI S ρ' 0 (fun _ => 0) (p.spec c)
+
+theorem memoInv_fresh (S : ISem) (p : IProg) : MemoInv S p (fun _ => none) := by
+  intro c tag val h; simp at h
+
+/-- Under the invariant a keyed read yields the specification at the *current* key, hit or miss. -/
+theorem stepI_memoRead (S : ISem) (p : IProg) (ρ : Atom → Int) (fld : Int) (c : IRun) (r k : Nat)
+    (hinv : MemoInv S p c.cells) (hcl : closedOver (p.keyAtoms k) (p.spec k) = true) :
+    stepI S p ρ fld c (.memoRead r k (p.spec k))
+      = { c with loc := upd c.loc r (evalI S ρ fld c.loc (p.spec k)) } := by
+  simp only [stepI]
+  cases hc : c.cells k with
+  | none => rfl
+  | some tv =>
+    obtain ⟨tag, val⟩ := tv
+    simp only
+    split
+    · rename_i htag
+      obtain ⟨ρ', hmap, hval⟩ := hinv k tag val hc
+      have hagree : ∀ a ∈ p.keyAtoms k, ρ' a = ρ a := by
+        have := hmap.trans htag
+        exact List.map_inj_left.mp this
+      rw [hval, evalI_congr S (p.keyAtoms k) (p.spec k) hcl ρ' ρ hagree 0 fld (fun _ => 0) c.loc]
+    · rfl
+
+/-- Two runs of an accepted body from stores that both satisfy the invariant, with equal locals and
+equal contents of the scratch buffers written so far, end with equal locals, and both stores still
+satisfy the invariant. -/
+theorem sim (S : ISem) (p : IProg) (ρ : Atom → Int) (fld : Int) (body : List IInstr) :
+    ∀ (w : List Nat) (c1 c2 : IRun), checkI p body w = true →
+      c1.loc = c2.loc → (∀ b ∈ w, c1.scratch b = c2.scratch b) →
+      MemoInv S p c1.cells → MemoInv S p c2.cells →
+      (execI S p ρ fld c1 body).loc = (execI S p ρ fld c2 body).loc ∧
+      MemoInv S p (execI S p ρ fld c1 body).cells ∧ MemoInv S p (execI S p ρ fld c2 body).cells := by
+  induction body with
+  | nil => intro w c1 c2 _ hl _ h1 h2; exact ⟨hl, h1, h2⟩
+  | cons i rest ih =>
+    intro w c1 c2 hck hl hs h1 h2
+    simp only [execI, List.foldl_cons] at ih ⊢
+    cases i with
+    | letE r e =>
+      simp only [checkI] at hck
+      apply ih w _ _ hck
+      · simp [stepI, hl]
+      · simpa [stepI] using hs
+      · simpa [stepI] using h1
+      · simpa [stepI] using h2
+    | memoFill k e =>
+      simp only [checkI, Bool.and_eq_true, beq_iff_eq] at hck
+      obtain ⟨⟨he, hcl⟩, hrest⟩ := hck
+      subst he
+      have fillInv : ∀ c : IRun, MemoInv S p c.cells →
+          MemoInv S p (stepI S p ρ fld c (.memoFill k (p.spec k))).cells := by
+        intro c hc k' tag val hcell
+        simp only [stepI, upd] at hcell
+        split at hcell
+        · rename_i hk
+          subst hk
+          simp only [Option.some.injEq, Prod.mk.injEq] at hcell
+          refine ⟨ρ, hcell.1, ?_⟩
+          rw [← hcell.2]
+          exact evalI_congr S (p.keyAtoms k') (p.spec k') hcl ρ ρ (fun _ _ => rfl) fld 0 c.loc (fun _ => 0)
+        · exact hc k' tag val hcell
+      apply ih w _ _ hrest
+      · simpa [stepI] using hl
+      · simpa [stepI] using hs
+      · exact fillInv c1 h1
+      · exact fillInv c2 h2
+    | memoRead r k fb =>
+      simp only [checkI, Bool.and_eq_true, beq_iff_eq] at hck
+      obtain ⟨⟨he, hcl⟩, hrest⟩ := hck
+      subst he
+      rw [stepI_memoRead S p ρ fld c1 r k h1 hcl, stepI_memoRead S p ρ fld c2 r k h2 hcl]
+      apply ih w _ _ hrest
+      · simp [hl]
+      · simpa using hs
+      · simpa using h1
+      · simpa using h2
+    | cellUpdate k e => simp [checkI] at hck
+    | rawRead r k => simp [checkI] at hck
+    | scratchWrite b e =>
+      simp only [checkI] at hck
+      apply ih (b :: w) _ _ hck
+      · simpa [stepI] using hl
+      · intro b' hb'
+        simp only [stepI, upd]
+        by_cases hbb : b' = b
+        · simp [hbb, hl]
+        · simp only [hbb, if_false]
+          exact hs b' (by simpa [hbb] using hb')
+      · simpa [stepI] using h1
+      · simpa [stepI] using h2
+    | scratchRead r b =>
+      simp only [checkI, Bool.and_eq_true, List.contains_eq_mem, decide_eq_true_eq] at hck
+      apply ih w _ _ hck.2
+      · simp [stepI, hl, hs b hck.1]
+      · simpa [stepI] using hs
+      · simpa [stepI] using h1
+      · simpa [stepI] using h2
+
+/-- A call of an accepted program keeps the invariant. -/
+theorem callI_inv (S : ISem) (p : IProg) (hs : safeInternal p = true) (E : EState) (v : InVal)
+    (h : MemoInv S p E.cells) : MemoInv S p (callI S p E v).2.cells := by
+  have := sim S p (atomEnv E.params v) v.field p.body [] ⟨E.cells, E.scratch, fun _ => 0⟩
+    ⟨E.cells, E.scratch, fun _ => 0⟩ hs rfl (fun _ _ => rfl) h h
+  exact this.2.1
+
+theorem callI_params (S : ISem) (p : IProg) (E : EState) (v : InVal) : (callI S p E v).2.params = E.params := rfl
+
+/-- Histories (calls and parameter changes) keep the invariant. -/
+theorem runHistory_inv (S : ISem) (p : IProg) (hs : safeInternal p = true) (h : List Event) :
+    ∀ E : EState, MemoInv S p E.cells → MemoInv S p (runHistory S p E h).cells := by
+  induction h with
+  | nil => intro E hE; exact hE
+  | cons e rest ih =>
+    intro E hE
+    simp only [runHistory, List.foldl_cons]
+    apply ih
+    cases e with
+    | call v => exact callI_inv S p hs E v hE
+    | setParam i x => exact hE
+
+/-- Two elements with the same parameters whose cells both satisfy the invariant answer alike. -/
+theorem callI_result_eq (S : ISem) (p : IProg) (hs : safeInternal p = true) (E1 E2 : EState) (v : InVal)
+    (hp : E1.params = E2.params) (h1 : MemoInv S p E1.cells) (h2 : MemoInv S p E2.cells) :
+    (callI S p E1 v).1 = (callI S p E2 v).1 := by
+  have := sim S p (atomEnv E1.params v) v.field p.body [] ⟨E1.cells, E1.scratch, fun _ => 0⟩
+    ⟨E2.cells, E2.scratch, fun _ => 0⟩ hs rfl (fun _ h => by simp at h) h1 h2
+  simp only [callI, ← hp]
+  rw [this.1]
+
 end HcipyVerif.Effects
